@@ -40,6 +40,22 @@ fn raw_clone(cap: usize, n: usize) {
     drop(d);
 }
 
+/// RawLRU::clone, identity only (cheap): same abstraction for every index iteration order
+fn raw_clone_id(cap: usize, n: usize) {
+    let (c, m) = gen::raw(cap, n);
+    let d = c.clone();
+    let s0 = snap(&d);
+    let identical = s0.same(&m.l) && d.cap() == c.cap() && d.len() == c.len() && d.verif_audit() == 0 && c.verif_audit() == 0;
+    let unchanged = snap(&c).same(&m.l);
+    witness!(n >= 2, m.l.n >= 2, "W: clone of a list with at least two entries (order matters)");
+    checks! {
+        "[C16][C17] RawLRU::clone has the same capacity, contents, values and recency order for every index iteration order" => identical;
+        "[C16][C13] cloning leaves the original unchanged" => unchanged;
+    }
+    drop(c);
+    drop(d);
+}
+
 /// SegmentedCache::clone (symbolic keys)
 fn slru_clone(pc: usize, tc: usize, np: usize, nt: usize) {
     let (mut c, mut m) = crate::h_slru::gen_slru(pc, tc, np, nt);
@@ -64,6 +80,21 @@ fn slru_clone(pc: usize, tc: usize, np: usize, nt: usize) {
         "[C16] the same put applied to original and clone gives identical results and states" => lockstep;
         "[C16] purging the original never affects the clone" => untouched;
         "[C16][C03] dropping the original leaves the clone intact" => pd3.p_keys && pd3.t_keys && pd3.vals && pd3.audit;
+    }
+    drop(d);
+}
+
+/// SegmentedCache::clone, identity only
+fn slru_clone_id(pc: usize, tc: usize, np: usize, nt: usize) {
+    let (c, m) = crate::h_slru::gen_slru(pc, tc, np, nt);
+    let d = c.clone();
+    let p0 = crate::h_slru::post_slru(&d, &m);
+    let identical = p0.audit && p0.size && p0.p_keys && p0.t_keys && p0.vals && d.cap() == c.cap();
+    drop(c);
+    let p1 = crate::h_slru::post_slru(&d, &m);
+    checks! {
+        "[C16][C17] SegmentedCache::clone reproduces both segments (contents, values, order, capacities)" => identical;
+        "[C16][C03] dropping the original leaves the clone intact" => p1.audit && p1.p_keys && p1.t_keys && p1.vals;
     }
     drop(d);
 }
@@ -710,6 +741,33 @@ macro_rules! misc_family {
             #[kani::unwind(6)]
             pub(crate) fn c1n0() {
                 super::raw_clone(1, 0)
+            }
+            #[kani::proof]
+            #[kani::unwind(6)]
+            pub(crate) fn id_c2n2() {
+                super::raw_clone_id(2, 2)
+            }
+            #[kani::proof]
+            #[kani::unwind(6)]
+            pub(crate) fn id_c3n3() {
+                super::raw_clone_id(3, 3)
+            }
+            #[kani::proof]
+            #[kani::unwind(6)]
+            pub(crate) fn id_c3n2() {
+                super::raw_clone_id(3, 2)
+            }
+        }
+        pub(crate) mod clone_slru_id {
+            #[kani::proof]
+            #[kani::unwind(6)]
+            pub(crate) fn c11n11() {
+                super::slru_clone_id(1, 1, 1, 1)
+            }
+            #[kani::proof]
+            #[kani::unwind(6)]
+            pub(crate) fn c22n22() {
+                super::slru_clone_id(2, 2, 2, 2)
             }
         }
         pub(crate) mod clone_slru {
